@@ -40,11 +40,14 @@ func TestC20(t *testing.T) {
 			})
 		})
 		fa := uint64(0)
+		fres := ""
 		if !ty.IsFixed() {
 			fa = measure(func() {
-				guard(func() string {
-					_ = flatDecode(newFlat(ty), data)
-					return ""
+				fres = guard(func() string {
+					if err := flatDecode(newFlat(ty), data); err != nil {
+						return "ERR"
+					}
+					return "OK"
 				})
 			})
 		}
@@ -52,7 +55,11 @@ func TestC20(t *testing.T) {
 			blown++
 			runtime.GC()
 		}
-		out.emit(tag, "c20", []string{ty.Sexp(), hexBytes(data)}, joinKV("res="+res, "alloc="+hx(va), "falloc="+hx(fa)))
+		kv := []string{"res=" + res, "alloc=" + hx(va), "falloc=" + hx(fa)}
+		if fres != "" {
+			kv = append(kv, "fres="+fres)
+		}
+		out.emit(tag, "c20", []string{ty.Sexp(), hexBytes(data)}, joinKV(kv...))
 	}
 	u8 := &Ty{Kind: "u", N: 1}
 	big := []*Ty{
